@@ -202,6 +202,7 @@ void drive(const Plan &p, uint64_t salt) {
         for (auto &kind : kinds)
             for (int where = 0; where < 3; ++where) {
                 size_t n = 1 + rng.below(rng.chance(1, 4) ? 6 : (quick ? 250 : 1500));
+                if (rng.chance(1, 8)) n = size_t(512) << rng.below(quick ? 2 : 3);   // whole pages of keys (4096 / sizeof(K) divides n): buffered writers end exactly on a chunk
                 MPlan pl{kind, n, where, {kind}, rng.next(), {}};
                 if (where == 1) pl.tags.push_back("at_lowest");
                 if (where == 2) pl.tags.push_back("ends_at_max-1");
